@@ -1,0 +1,148 @@
+//go:build verif
+
+package filters
+
+// Contracts for the verification machinery in /verif (govc). Comment-only file:
+// compiled only with -tags verif, and even then it contains no code.
+// `filter "name"` denotes the function registered with AddFilter("name", ...) in
+// AddStandardFilters. Every filter only reads its arguments: `assigns` lists
+// allocation only, so a write to caller-owned memory fails a frame obligation (C03).
+
+// ---- numeric filters (C17) -------------------------------------------------------
+
+//@ func filter "plus"
+//@ props C17 C03 C01
+//@ panics nothing
+//@ assigns nothing
+//@ ensures sum: same(result, fadd(a, b))
+
+//@ func filter "minus"
+//@ props C17 C03 C01
+//@ panics nothing
+//@ assigns nothing
+//@ ensures difference: same(result, fsub(a, b))
+
+//@ func filter "times"
+//@ props C17 C03 C01
+//@ panics nothing
+//@ assigns nothing
+//@ ensures product: same(result, fmul(a, b))
+
+//@ func filter "modulo"
+//@ props C17 C03 C01
+//@ panics nothing
+//@ assigns nothing
+//@ ensures zero: feq(b, i2f(0)) ==> result1 != nil
+//@ ensures remainder: !feq(b, i2f(0)) ==> result1 == nil && same(result0, math.Mod(a, b))
+
+//@ func filter "divided_by"
+//@ props C17 C18 C03 C01
+//@ panics nothing
+//@ ensures intDivisor: isint(kind(b)) && kind(b) != Uintptr && pl_int(b) != 0 && pl_int(b) <= 9223372036854775807 ==> result1 == nil && result0 == box(tdiv(f2i(a), pl_int(b)), int64)
+//@ ensures hugeDivisor: isint(kind(b)) && kind(b) != Uintptr && pl_int(b) > 9223372036854775807 ==> result1 == nil && result0 == box(0, int64)
+//@ ensures intZero: isint(kind(b)) && kind(b) != Uintptr && pl_int(b) == 0 ==> result1 != nil && result0 == nil
+//@ ensures floatDivisor: isflt(kind(b)) && !feq(pl_flt(b), i2f(0)) ==> result1 == nil && is(result0, float64) && same(as(result0, float64), fdiv(a, pl_flt(b)))
+//@ ensures floatZero: isflt(kind(b)) && feq(pl_flt(b), i2f(0)) ==> result1 != nil && result0 == nil
+//@ ensures otherDivisor: !isint(kind(b)) && !isflt(kind(b)) ==> result1 != nil && result0 == nil
+
+//@ func filter "ceil"
+//@ props C17 C03 C01
+//@ panics nothing
+//@ assigns nothing
+//@ ensures def: result == f2i(math.Ceil(a))
+
+//@ func filter "floor"
+//@ props C17 C03 C01
+//@ panics nothing
+//@ assigns nothing
+//@ ensures def: result == f2i(math.Floor(a))
+
+// ---- string filters (C16) --------------------------------------------------------
+
+//@ func filter "append"
+//@ props C16 C03 C01
+//@ panics nothing
+//@ assigns nothing
+//@ ensures concat: result == cat(s, suffix)
+
+//@ func filter "prepend"
+//@ props C16 C03 C01
+//@ panics nothing
+//@ assigns nothing
+//@ ensures concat: result == cat(prefix, s)
+
+//@ func filter "upcase"
+//@ props C16 C03 C01
+//@ panics nothing
+//@ assigns nothing
+//@ ensures delegates: result == strings.ToUpper(s)
+
+//@ func filter "downcase"
+//@ props C16 C03 C01
+//@ panics nothing
+//@ assigns nothing
+//@ ensures delegates: result == strings.ToLower(s)
+
+//@ func filter "capitalize"
+//@ props C16 C03 C01
+//@ panics nothing
+//@ assigns nothing
+//@ ghost w Int = 0
+//@ at call DecodeRuneInString #1: w = result1
+//@ ensures empty: len(s) == 0 ==> result == s
+//@ ensures firstCharacter: len(s) > 0 ==> 1 <= w && w <= len(s) && result == cat(strings.ToUpper(substr(s, 0, w)), substr(s, w, len(s)))
+
+//@ func filter "slice"
+//@ props C16 C03 C01
+//@ panics values.TypeError
+//@ assigns alloc S$Int
+//@ ghost n Int = 0
+//@ at call length #1: n = result
+//@ ensures empty: len(s) == 0 ==> result == ""
+//@ ensures outOfRange: len(s) > 0 && (n <= 0 || ite(start < 0, start + runecount(s), start) < 0 || ite(start < 0, start + runecount(s), start) > runecount(s)) ==> result == ""
+//@ ensures characters: len(s) > 0 && n > 0 && 0 <= ite(start < 0, start + runecount(s), start) && ite(start < 0, start + runecount(s), start) <= runecount(s) ==> result == runes2str(str_runes(s), ite(start < 0, start + runecount(s), start), min(n, runecount(s) - ite(start < 0, start + runecount(s), start)))
+
+// ---- array filters (C15, C03) -----------------------------------------------------
+
+//@ func filter "first"
+//@ props C15 C03 C01
+//@ panics nothing
+//@ assigns nothing
+//@ ensures empty: len(a) == 0 ==> result == nil
+//@ ensures first: len(a) > 0 ==> result == a[0]
+
+//@ func filter "last"
+//@ props C15 C03 C01
+//@ panics nothing
+//@ assigns nothing
+//@ ensures empty: len(a) == 0 ==> result == nil
+//@ ensures last: len(a) > 0 ==> result == a[len(a)-1]
+
+//@ func filters.reverseFilter
+//@ props C15 C03 C01
+//@ panics nothing
+//@ assigns alloc S$Val
+//@ ensures fresh: is(result, []any) && fresh(as(result, []any)) && len(as(result, []any)) == len(a)
+//@ ensures reversed: forall(k, 0, len(a), as(result, []any)[k] == a[len(a)-1-k])
+//@ ensures inputUnchanged: forall(k, 0, len(a), a[k] == old(a[k]))
+//@ loop 1 invariant filled: len(result) == len(a) && fresh(result) && forall(k, 0, _i, result[len(a)-1-k] == a[k])
+//@ loop 1 invariant inputUnchanged: forall(k, 0, len(a), a[k] == old(a[k]))
+
+//@ func filter "compact"
+//@ props C15 C03 C01
+//@ panics nothing
+//@ assigns alloc S$Val
+//@ ensures noNils: forall(k, 0, len(result), result[k] != nil)
+//@ ensures inputUnchanged: forall(k, 0, len(a), a[k] == old(a[k]))
+//@ ensures noLonger: len(result) <= len(a)
+//@ loop 1 invariant noNils: freshOrNil(result) && len(result) <= _i && forall(k, 0, len(result), result[k] != nil)
+//@ loop 1 invariant inputUnchanged: forall(k, 0, len(a), a[k] == old(a[k]))
+
+//@ func filter "concat"
+//@ props C15 C03 C01
+//@ panics nothing
+//@ assigns alloc S$Val
+//@ ensures length: len(result) == len(a) + len(b)
+//@ ensures left: forall(k, 0, len(a), result[k] == a[k])
+//@ ensures right: forall(k, 0, len(b), result[len(a)+k] == b[k])
+//@ ensures inputUnchanged: forall(k, 0, len(a), a[k] == old(a[k])) && forall(k, 0, len(b), b[k] == old(b[k]))
